@@ -150,6 +150,9 @@ type Msg struct {
 	// that answers where the honest one refuses) and return Forward; a hook that
 	// does not fill it must return Cut, which is what happened on the wire.
 	Synthetic bool
+	// RenterClosed is closed once the renter closed its end of the stream (it
+	// gave up or finished): a hook waiting for a renter message can stop then.
+	RenterClosed <-chan struct{}
 }
 
 // An Action tells the transport what to do with a message after the hook ran.
